@@ -216,8 +216,49 @@ var indexSections = map[string][]string{
 func analyzeGenDoc(g *Gen) any {
 	g.MaxDepth = 3
 	g.PlantRefs = 0.25
-	raw := g.Doc(DocOpts{NoPathsProb: 0.05, NonBodySchema: false})
+	// one document in eight is outside the domain of C11-C13 (a non-body parameter carrying a schema: loadable, invalid
+	// Swagger): only the correspondence between model and implementation is decided on those
+	ood := g.p(0.125)
+	raw := g.Doc(DocOpts{NoPathsProb: 0.05, NonBodySchema: ood})
+	if ood {
+		g.hit("doc:out-of-domain-stream")
+	}
 	return normRefs(raw)
+}
+
+// hasNonBodySchema: some parameter that is not in: body carries a schema (outside the domain of C11-C13).
+func hasNonBodySchema(doc any) bool {
+	found := false
+	check := func(p any) {
+		pm, ok := p.(map[string]any)
+		if !ok {
+			return
+		}
+		if _, has := pm["schema"]; has {
+			if in, _ := pm["in"].(string); in != "body" {
+				found = true
+			}
+		}
+	}
+	if ps, ok := get(doc, "parameters").(map[string]any); ok {
+		for _, p := range ps {
+			check(p)
+		}
+	}
+	if paths, ok := get(doc, "paths").(map[string]any); ok {
+		for _, pi := range paths {
+			pm, _ := pi.(map[string]any)
+			for _, p := range asList(pm["parameters"]) {
+				check(p)
+			}
+			for _, m := range allMethods {
+				for _, p := range asList(get(pm[m], "parameters")) {
+					check(p)
+				}
+			}
+		}
+	}
+	return found
 }
 
 var analyzeStream = (&StreamSpec{
@@ -257,7 +298,11 @@ var analyzeStream = (&StreamSpec{
 		if secs == nil {
 			secs = []string{"refs", "itemsRefs", "allRefs", "schemas", "patterns", "allPatterns", "enums", "allEnums", "ops", "consumes", "produces", "auth"}
 		}
+		ood := hasNonBodySchema(c.In)
 		for _, s := range secs {
+			if ood {
+				break // outside the quantifier of C11-C13: observation only
+			}
 			if !jsonEq(get(impl, s), get(specx, s)) {
 				fs = append(fs, Finding{Kind: "property", Detail: fmt.Sprintf("index %q differs from what the document contains: %s (left: expected from the document, right: analyzer)", s, firstDiff(get(specx, s), get(impl, s))), Signature: "analyze:index:" + s})
 			}
